@@ -1285,7 +1285,9 @@ fn extract(src: &Src, b: &Block, report: &mut Vec<serde_json::Value>, vacuity: b
                 let body_norm_cache: Vec<(usize, usize, String)> =
                     col.stmts.iter().map(|&(s, e)| (s, e, strip_attrs(&norm(&text[s..e])))).collect();
                 for (place, lines) in &b.hints {
-                    let txt = format!("\n\t\t// >>H\n{}\t\t// <<H\n", indent(lines, "\t\t"));
+                    // a `result` hint asserts the witnesses of the postcondition right before the return: marked W (contract-level), not H
+                    let mk = if place == "result" { "W" } else { "H" };
+                    let txt = format!("\n\t\t// >>{mk}\n{}\t\t// <<{mk}\n", indent(lines, "\t\t"));
                     if place == "start" {
                         col.push(open.1, open.1, txt, "H");
                     } else if place == "end" {
